@@ -166,8 +166,48 @@ func (m *Machine) index(fr *frame, instr *ssa.Index) Value {
 	panic(fmt.Sprintf("Index on %T", x))
 }
 
+// symStrSlice handles s[lo:hi] on a string when lo/hi are symbolic but hi-lo is a
+// known constant (strconv's small-number tables): the result has concrete length
+// and element-wise selected bytes — no fork over the 100 possible offsets.
+func (m *Machine) symStrSlice(fr *frame, instr *ssa.Slice, x Str) (Value, bool) {
+	if instr.Low == nil || instr.High == nil || instr.Max != nil {
+		return nil, false
+	}
+	lo := m.idx64(fr.get(instr.Low), instr.Low.Type())
+	hi := m.idx64(fr.get(instr.High), instr.High.Type())
+	if lo.T == nil {
+		return nil, false
+	}
+	d := m.ts.Bin(OpSub, m.term(hi, 64), lo.T)
+	if d.op != OpConst || d.k > 16 || int(d.k) > x.Len() {
+		return nil, false
+	}
+	n := int(d.k)
+	// bounds: lo <= len-n (unsigned)
+	ok := m.ts.Cmp(OpUle, lo.T, m.ts.Const(64, uint64(x.Len()-n)))
+	if !m.decide(ok) {
+		m.panicRuntime("slice bounds out of range [sym:sym]")
+	}
+	bs := x.Bytes()
+	a := make([]Value, len(bs))
+	for i, b := range bs {
+		a[i] = b
+	}
+	out := make([]Int, n)
+	for j := 0; j < n; j++ {
+		idx := m.ts.Bin(OpAdd, lo.T, m.ts.Const(64, uint64(j)))
+		out[j] = m.symSelectW(a, idx, 8).(Int)
+	}
+	return normStr(out), true
+}
+
 func (m *Machine) sliceOp(fr *frame, instr *ssa.Slice) Value {
 	x := fr.get(instr.X)
+	if xs, ok := x.(Str); ok {
+		if v, ok := m.symStrSlice(fr, instr, xs); ok {
+			return v
+		}
+	}
 	var lo, hi, max int64 = 0, -1, -1
 	get := func(v ssa.Value) int64 {
 		i := m.idx64(fr.get(v), v.Type())
@@ -483,7 +523,11 @@ func (m *Machine) callBuiltin(caller *frame, pos token.Pos, fn *ssa.Builtin, arg
 		if n+len(src) <= cap(dst.A) {
 			// write into spare capacity (aliasing semantics as in Go)
 			r := dst.A[:n+len(src)]
+			snap := make([]Value, len(src))
 			for i, v := range src {
+				snap[i] = copyVal(v)
+			}
+			for i, v := range snap {
 				m.store(&r[n+i], v)
 			}
 			return Slice{A: r}
@@ -534,7 +578,9 @@ func (m *Machine) callBuiltin(caller *frame, pos token.Pos, fn *ssa.Builtin, arg
 		}
 		// handle overlap like memmove
 		tmp := make([]Value, n)
-		copy(tmp, src[:n])
+		for i := 0; i < n; i++ {
+			tmp[i] = copyVal(src[i]) // aggregates are reference-like host objects: snapshot them
+		}
 		for i := 0; i < n; i++ {
 			m.store(&dst.A[i], tmp[i])
 		}
@@ -635,6 +681,57 @@ func (m *Machine) callBuiltin(caller *frame, pos token.Pos, fn *ssa.Builtin, arg
 			}
 		}
 		return acc
+
+	case "SliceData":
+		sl := args[0].(Slice)
+		if cap(sl.A) == 0 {
+			return (*Value)(nil)
+		}
+		full := sl.A[:1]
+		p := &full[0]
+		m.ptrOrigin[p] = sl.A[:cap(sl.A)]
+		return p
+
+	case "StringData":
+		st := args[0].(Str)
+		if st.Len() == 0 {
+			return (*Value)(nil)
+		}
+		bs := st.Bytes()
+		a := make([]Value, len(bs))
+		for i, b := range bs {
+			a[i] = b
+		}
+		m.ptrOrigin[&a[0]] = a
+		return &a[0]
+
+	case "String":
+		p := args[0].(*Value)
+		n := int(m.concInt(args[1].(Int), 64, "unsafe.String len"))
+		if n == 0 {
+			return Str{}
+		}
+		a, ok := m.ptrOrigin[p]
+		if !ok || n > len(a) {
+			unsupported("unsafe.String on a pointer not obtained from unsafe.SliceData/StringData")
+		}
+		bs := make([]Int, n)
+		for i := 0; i < n; i++ {
+			bs[i] = a[i].(Int)
+		}
+		return normStr(bs)
+
+	case "Slice":
+		p := args[0].(*Value)
+		n := int(m.concInt(args[1].(Int), 64, "unsafe.Slice len"))
+		if p == nil {
+			return Slice{}
+		}
+		a, ok := m.ptrOrigin[p]
+		if !ok || n > len(a) {
+			unsupported("unsafe.Slice on a pointer not obtained from unsafe.SliceData/StringData")
+		}
+		return Slice{A: a[:n:n]}
 
 	case "ssa:wrapnilchk":
 		recv := args[0]
